@@ -110,6 +110,13 @@ CLAIMED = {
         "Reference = Becke 1988 with |a| clipped at 0.45 and the documented fallback; VERIF_SEED jitters coordinates by <= 0.03 bohr.",
         "DESIGN.md 3/C06",
     ),
+    "C05": (
+        "exploration",
+        "product of 4 radial grids (with/without an r=0 node) x all per-shell degree sequences over a 3-degree alphabet per method (complete for lengths 3-4, deviation-bounded for 5-6; thorough complete) x 4 methods x 2 centres x 4 rotation seeds, every shell compared with centre + r_i x (unit angular grid x recovered orthogonal matrix) and w_i r_i^2 x angular weights; factorised integrals of 3 radial shapes x all (l,m) <= min degree; all sector placements for from_pruned; all 17 presets x every tabulated element (1374 pairs) against the raw .npz tables",
+        "Every (shell, angular node) pair of every configuration is tied to its definition (3.9e5 identities quick), for every degree sequence of the alphabet rather than three or four configurations; presets are enumerated completely.",
+        "Unit angular grids come from AngularGrid(cache=False) (decided by C02/C12); exact ties of a radial node with a sector boundary are accepted either way (docstring ambiguous); Ahrens-Beylkin degrees with defective data files are kept out of the alphabet.",
+        "DESIGN.md 3/C05",
+    ),
 }
 
 NOT_YET = "check not built yet in this session (work in progress; see DESIGN.md section 8 for the order of work)"
